@@ -28,7 +28,22 @@ import (
 	"verif/sim/core"
 )
 
-const verifRoot = "/verif"
+// verifRoot is where the framework sources live (a vp-run snapshot sets
+// VERIF_ROOT through ./check); outRoot is where evidence, replays and binaries
+// go (VERIF_OUT; default verifRoot); repoRoot is the tree under test
+// (VERIF_REPO; default /repo - scratch copies are used for mutant runs only).
+var (
+	verifRoot = envOr("VERIF_ROOT", "/verif")
+	outRoot   = envOr("VERIF_OUT", verifRoot)
+	repoRoot  = envOr("VERIF_REPO", "/repo")
+)
+
+func envOr(k, d string) string {
+	if v := os.Getenv(k); v != "" {
+		return v
+	}
+	return d
+}
 
 func main() {
 	if len(os.Args) < 2 {
@@ -39,12 +54,16 @@ func main() {
 		if len(os.Args) < 4 {
 			usage()
 		}
-		os.Exit(runCheck(os.Args[2], os.Args[3]))
+		rc := runCheck(os.Args[2], os.Args[3])
+		cleanupBins()
+		os.Exit(rc)
 	case "replay":
 		if len(os.Args) < 3 {
 			usage()
 		}
-		os.Exit(replay(os.Args[2]))
+		rc := replay(os.Args[2])
+		cleanupBins()
+		os.Exit(rc)
 	case "selftest":
 		if len(os.Args) < 3 {
 			usage()
@@ -53,7 +72,9 @@ func main() {
 		if len(os.Args) > 3 {
 			n, _ = strconv.Atoi(os.Args[3])
 		}
-		os.Exit(selftest(os.Args[2], n))
+		rc := selftest(os.Args[2], n)
+		cleanupBins()
+		os.Exit(rc)
 	case "manifest":
 		os.Exit(writeManifest())
 	case "list":
@@ -85,27 +106,47 @@ func goBin() string {
 
 var buildMu sync.Mutex
 
-// buildEngine compiles the engine's test binary from /repo's current tree.
+// builtBins are per-process engine binaries, removed on exit.
+var builtBins []string
+
+func cleanupBins() {
+	for _, b := range builtBins {
+		os.Remove(b)
+	}
+}
+
+// buildEngine compiles the engine's test binary from the repo's current tree.
 func buildEngine(engine string, race bool) (string, error) {
 	buildMu.Lock()
 	defer buildMu.Unlock()
-	os.MkdirAll(filepath.Join(verifRoot, "bin"), 0755)
-	out := filepath.Join(verifRoot, "bin", engine+".test")
-	args := []string{"test", "-c", "-tags", "verif", "-vet=off", "-o", out}
+	binDir := filepath.Join(outRoot, "bin")
+	os.MkdirAll(binDir, 0755)
+	simDir := filepath.Join(verifRoot, "sim")
+	out := filepath.Join(binDir, fmt.Sprintf("%s-%d.test", engine, os.Getpid()))
+	args := []string{"test", "-c", "-tags", "verif", "-vet=off"}
 	if race {
-		out = filepath.Join(verifRoot, "bin", engine+".race.test")
-		args = []string{"test", "-c", "-race", "-tags", "verif", "-vet=off", "-o", out}
+		out = filepath.Join(binDir, fmt.Sprintf("%s-%d.race.test", engine, os.Getpid()))
+		args = append(args, "-race")
 	}
-	args = append(args, "./engines/"+engine)
-	// keep go.sum in step with /repo's
-	if b, err := os.ReadFile("/repo/go.sum"); err == nil {
-		cur, _ := os.ReadFile(filepath.Join(verifRoot, "sim", "go.sum"))
-		if !bytes.Contains(cur, b[:min(len(b), 200)]) {
-			os.WriteFile(filepath.Join(verifRoot, "sim", "go.sum"), append(b, cur...), 0644)
-		}
+	builtBins = append(builtBins, out)
+	// The module file is generated per build so that the replace directive
+	// names the tree under test; go.sum is the repo's own plus ours.
+	modBase, err := os.ReadFile(filepath.Join(simDir, "go.mod"))
+	if err != nil {
+		return "", err
 	}
+	mod := strings.Replace(string(modBase), "=> /repo", "=> "+repoRoot, 1)
+	h := sha256.Sum256([]byte(repoRoot + "|" + simDir))
+	modPath := filepath.Join(binDir, "sim-"+hex.EncodeToString(h[:4])+".mod")
+	if err := os.WriteFile(modPath, []byte(mod), 0644); err != nil {
+		return "", err
+	}
+	sum, _ := os.ReadFile(filepath.Join(repoRoot, "go.sum"))
+	extra, _ := os.ReadFile(filepath.Join(simDir, "go.sum"))
+	os.WriteFile(strings.TrimSuffix(modPath, ".mod")+".sum", append(append(sum, '\n'), extra...), 0644)
+	args = append(args, "-modfile="+modPath, "-o", out, "./engines/"+engine)
 	cmd := exec.Command(goBin(), args...)
-	cmd.Dir = filepath.Join(verifRoot, "sim")
+	cmd.Dir = simDir
 	cmd.Env = goEnv()
 	var buf bytes.Buffer
 	cmd.Stdout, cmd.Stderr = &buf, &buf
@@ -535,7 +576,7 @@ func minimiseAndWrite(bin string, p *Prop, vr *violRec, tmp string) (string, err
 	if len(rf.Log) > 400 {
 		rf.Log = rf.Log[len(rf.Log)-400:]
 	}
-	dir := filepath.Join(verifRoot, "replays", p.ID)
+	dir := filepath.Join(outRoot, "replays", p.ID)
 	os.MkdirAll(dir, 0755)
 	h := sha256.Sum256([]byte(vr.v.Signature))
 	path := filepath.Join(dir, fmt.Sprintf("%d-%s.json", small.Seed, hex.EncodeToString(h[:4])))
@@ -720,10 +761,10 @@ func writeEvidence(p *Prop, tier string, seed uint64, a *agg, wall, buildS float
 		"wall_s":      wall,
 		"violations":  nviol,
 	}
-	os.MkdirAll(filepath.Join(verifRoot, "evidence"), 0755)
+	os.MkdirAll(filepath.Join(outRoot, "evidence"), 0755)
 	jb, err := json.MarshalIndent(ev, "", " ")
 	if err != nil {
 		return err
 	}
-	return os.WriteFile(filepath.Join(verifRoot, "evidence", p.ID+".json"), jb, 0644)
+	return os.WriteFile(filepath.Join(outRoot, "evidence", p.ID+".json"), jb, 0644)
 }
